@@ -149,6 +149,9 @@ def check(case):
                     kind = "frozen" if (n == "q" or n in exp_par) else "recomputed"
                     return outcome(False, "wrong-value", symptom=f"wrong-value:{kind}", nontrivial=nt,
                                    detail=f"{n} at {state}, t={t}: {got[n]} expected {val} | {txt}")
+            # reading the coefficient table at this state must not freeze anything for the next one
+            m.get_stoichiometries(state, t)
+            m.get_stoichiometries_of_variable(var_names[-1], state, t)
             rhs = m.get_right_hand_side(state, t)
             er = ref.rhs(state, t)
             for v in var_names:
